@@ -57,6 +57,21 @@ Theorem success_iff_accepted_refuted : exists t a n o,
   a <> AuthFail /\ (0 < n)%N /\ o <> Accept /\ h_called (hop t a n o) = true /\ h_verdict (hop t a n o) = Success.
 Proof. exact success_iff_accepted_refuted_l. Qed.
 
+(* ... also when the export overlaps the receiver's Shutdown: a request that is inside the consumer when
+   Shutdown starts is drained (same result as without the shutdown), a request sent after the shutdown never
+   reaches the consumer and fails as retryable; in every phase success <-> the consumer was handed the data
+   and accepted it *)
+Theorem shutdown_drains_inflight : forall t a n o, hop_at InFlightAtShutdown t a n o = hop t a n o.
+Proof. exact shutdown_drains_l. Qed.
+
+Theorem after_shutdown_not_consumed_retryable : forall t a n o,
+  h_called (hop_at AfterShutdown t a n o) = false /\ h_verdict (hop_at AfterShutdown t a n o) = Retryable.
+Proof. exact after_shutdown_l. Qed.
+
+Theorem success_iff_consumer_accepted_partial : forall ph t a n o, a <> AuthFail -> (0 < n)%N -> ok_coded o = false ->
+  (h_verdict (hop_at ph t a n o) = Success <-> (h_called (hop_at ph t a n o) = true /\ o = Accept)).
+Proof. exact success_iff_consumer_accepted_l. Qed.
+
 (* ---- clause 3: how a consumer error is reported: an explicit gRPC status => that status (code and
    RetryInfo); any other permanent error => Internal; any other error => Unavailable *)
 Theorem status_mapping : forall o, o <> Accept -> ok_coded o = false ->
@@ -250,6 +265,9 @@ Print Assumptions empty_request_acknowledged.
 Print Assumptions empty_request_hop.
 Print Assumptions success_iff_accepted_partial.
 Print Assumptions success_iff_accepted_refuted.
+Print Assumptions shutdown_drains_inflight.
+Print Assumptions after_shutdown_not_consumed_retryable.
+Print Assumptions success_iff_consumer_accepted_partial.
 Print Assumptions status_mapping.
 Print Assumptions status_mapping_explicit.
 Print Assumptions status_mapping_other.
